@@ -8,13 +8,17 @@ C05_num_roundtrip_unsigned C05_num_roundtrip_signed C05_num_roundtrip_hex C05_se
 C05_TopoEquiv_refl C05_TopoEquiv_symm C05_TopoEquiv_trans C05_TopoEquiv_fields C05_TopoEquiv_implies_tree_sets
 C05_sanitize_idem
 C05_tree_roundtrip C05_subtree_roundtrip C05_tree_children_preserved C05_tree_fixpoint C05_tree_norm_idem C05_tree_norm_valid
-C05_userdata_roundtrip C05_pagetype_roundtrip C05_tree_roundtrip_start_tags_as_bytes C05_tree_export_wellformed C05_tree_second_export C05_tree_second_export_same_attrs""".split()]
+C05_userdata_roundtrip C05_pagetype_roundtrip C05_tree_roundtrip_start_tags_as_bytes C05_tree_export_wellformed C05_tree_second_export C05_tree_second_export_same_attrs
+C05_cpukinds_xml_roundtrip C05_memattrs_xml_roundtrip C05_memattr_rebuild C05_distances_xml_roundtrip C05_type_prefix_scan C05_side_roundtrip""".split()]
 CHECK_MODULES = ["Hw.Props.C05"]
 TRUSTED = [
     "PARTIAL: the start tag of <object> and the <info> elements are modelled and proved at the object level (exportAttrs / importAttrs, tied by "
     "the OBJ lines) and the assembly of the object tree (nesting, <info> / <page_type> / <userdata> child elements, the four child lists, the "
     "parent-kind checks) at the tree level (exportTree / importTree on element trees, tied by the TREE lines, v3 format, nolibxml); the "
-    "distances / memattr / cpukind / support elements of hwloc/topology-xml.c, the v2-format flags, the nolibxml tag scanner below the "
+    "distances2(hetero) / memattr / cpukind / topology-info elements at the side level (Hw.Io.XmlSide: exportSide / importSide on the element "
+    "list after the root object, tied by the SIDE lines; what the importer hands to hwloc_internal_distances_add_by_index / "
+    "hwloc_internal_memattr_set_value / hwloc_internal_cpukinds_register, not those core functions, except the find-or-append of set_value); the "
+    "support elements of hwloc/topology-xml.c, the v2-format flags, the nolibxml tag scanner below the "
     "start tags and the libxml2 back end are exercised, not modelled: that export+import reproduces a whole topology is "
     "established on the generated topologies of each run (judged by the proved-equivalence relation TopoEquiv in the Lean driver)",
     "the un-escaper model reads the original buffer (the C code copies in place; reads are always at or after the cell being written)",
@@ -46,7 +50,13 @@ MODELLED = ("modelled at the object level (Hw.Io.XmlObj): the attribute list hwl
             "Group/Bridge depth, floating point (pci_link_speed text), type filters, v2 rules, the Tile/Module/Cluster type spellings; "
             "modelled: hwloc__nolibxml_export_escape_string, hwloc__nolibxml_import_next_attr (topology-xml-nolibxml.c 48-108, 547-587), "
             "hwloc_encode_to_base64 / hwloc_decode_from_base64 (base64.c), HWLOC_XML_CHAR_VALID / safestrdup, the printf/strto* pairs, "
-            "fixup_sets' memory-child rule; exercised only: topology-xml.c object/distances/memattr/cpukind/support/userdata import+export, "
+            "fixup_sets' memory-child rule; modelled at the side level (Hw.Io.XmlSide): hwloc___xml_v2export_distances with the EXPORT_ARRAY / "
+            "EXPORT_TYPE_GPINDEX_ARRAY chunking (10 per child) and hwloc__xml_import_distances (attribute loop, length / get_content test, the "
+            "strtoull and Type:index loops, the bounds and ignore rules), hwloc__xml_export_memattrs / _memattr_target and "
+            "hwloc__xml_import_memattr / _memattr_value, hwloc__xml_export_cpukinds / hwloc__xml_import_cpukind, topology <info>, the element "
+            "loop of hwloc_look_xml, tied by the SIDE lines (elements of the real export after the root object = exportSide of the structures "
+            "read through the public API, importSide of them = normalised original = reloaded structures); exercised only: topology-xml.c "
+            "support import+export, "
             "topology-xml-libxml.c, the nolibxml tag scanner (find_child/close_tag/get_content)")
 
 
